@@ -318,16 +318,24 @@ pub fn write_float_nonscientific<const FORMAT: u128>(
     // may have been truncated.
     // Won't panic since `integer_count < digits.len()` since `digit_count <
     // digits.len()`.
+    // The leading zeros of a value below 1 are not significant digits.
+    let leading_zeros = ltrim_char_count(digits, b'0').min(digit_count.saturating_sub(1));
     let digits = &digits[integer_count..];
-    let fraction_count = digit_count.saturating_sub(integer_length);
+    let mut fraction_count = digit_count.saturating_sub(integer_length);
     if fraction_count > 0 {
         // Need to write additional fraction digits.
         let src = &digits[..fraction_count];
         let end = cursor + fraction_count;
         let dst = &mut bytes[cursor..end];
         copy_to_dst(dst, src);
+        // The trailing zeros are not written, and so are no longer digits.
         let zeros = rtrim_char_count(&bytes[cursor..end], b'0');
-        cursor += fraction_count - zeros;
+        fraction_count -= zeros;
+        digit_count -= zeros;
+        cursor += fraction_count;
+    }
+    if fraction_count > 0 {
+        // Have fraction digits, nothing to do.
     } else if options.trim_floats() {
         // Remove the decimal point, went too far.
         cursor -= 1;
@@ -338,7 +346,7 @@ pub fn write_float_nonscientific<const FORMAT: u128>(
     }
 
     // Determine if we need to add more trailing zeros.
-    let exact_count = shared::min_exact_digits(digit_count, options);
+    let exact_count = shared::min_exact_digits(digit_count - leading_zeros, options) + leading_zeros;
 
     // Write any trailing digits to the output.
     // Won't panic since bytes cannot be empty.
